@@ -315,6 +315,20 @@ func (w *World) checkC11(pre, post views, e Event, pkt *Packet) {
 			w.violate("C11", "stay-forgotten", "relearn-after-expiry:"+l.via, "%s had expired %s (gone for good) and re-learned it via %s from %s", who, l.id, l.via, w.nodes[l.src].ID)
 		}
 	}
+	if e.Kind == "liveness" {
+		// restored if it is heard from again: a delta datagram from x reached
+		// this node after it was marked unreachable, and liveness was
+		// re-evaluated
+		i := e.A
+		for x, h := range w.heardAtLiveness {
+			if !h {
+				continue
+			}
+			if v := post[i][w.nodes[x].ID]; v != nil && v.Unreachable && !v.Left {
+				w.violate("C11", "recover", "heard-from-but-still-unreachable", "%s received a datagram from %s after marking it unreachable, re-evaluated liveness, and still marks it unreachable", w.nodes[i].ID, w.nodes[x].ID)
+			}
+		}
+	}
 	if e.Kind == "sweep" {
 		i := e.A
 		if p := pre[i][w.nodes[e.B].ID]; p != nil && !p.Expiry.IsZero() {
@@ -376,10 +390,11 @@ func (w *World) checkC04(post views) {
 			// caught up with everything the owner published
 			want := w.nodes[x].CS.LocalNode()
 			got, ok := nd.CS.Node(id)
-			if w.everExpired[o][x] && w.hasHole(v, owner) {
+			if w.anyExpired(x) && w.hasHole(v, owner) {
 				// finding F3: the gossip view itself skipped entries because a
 				// delta computed against a digest sent before the node was
-				// forgotten was applied afterwards
+				// forgotten was applied afterwards (at this observer, or at the
+				// peer this observer copied its view from)
 				if !ok || !sameEndpoints(got.Endpoints, want.Endpoints) {
 					w.violate("C04", "mirror", "stale-delta-after-expiry-leaves-hole", "%s forgot %s, then applied a delta computed for its old view: it reports version %d but holds %s, owner has %s", nd.ID, id, v.Version, descNode(v), descNode(owner))
 				}
@@ -426,6 +441,16 @@ func (w *World) checkC04(post views) {
 			}
 		}
 	}
+}
+
+// anyExpired: some node has expired x at some point of this history.
+func (w *World) anyExpired(x int) bool {
+	for o := range w.everExpired {
+		if w.everExpired[o][x] {
+			return true
+		}
+	}
+	return false
 }
 
 // hasHole: the view claims version v but lacks entries the owner holds at or
